@@ -203,7 +203,7 @@ async fn flood_cell(addr: SocketAddr, set: Arc<CertSet>, topic: String, frames: 
             let _ = tx.send(l);
         }
     });
-    let wait_line = |prefix: &str, secs: u64| -> Option<String> {
+    fn wait_line(rx: &mut std::sync::mpsc::Receiver<String>, prefix: &str, secs: u64) -> Option<String> {
         let t0 = std::time::Instant::now();
         while t0.elapsed() < Duration::from_secs(secs) {
             if let Ok(l) = rx.recv_timeout(Duration::from_millis(100)) {
@@ -213,8 +213,9 @@ async fn flood_cell(addr: SocketAddr, set: Arc<CertSet>, topic: String, frames: 
             }
         }
         None
-    };
-    if wait_line("READY", 30).is_none() {
+    }
+    let mut rx = rx;
+    if wait_line(&mut rx, "READY", 30).is_none() {
         let _ = child.kill();
         return Err(setup("child", "the subscriber process did not attach within 30 s".into()));
     }
